@@ -1389,6 +1389,78 @@ pub fn termp_line(input: &[u8], o: Opts) -> String {
         _ => format!("{}nobuild {}", head, outcome_short(&r)),
     }
 }
+/// `termpc …`: `print()` called 40 times in a child process in which two OTHER threads write log lines to standard output
+/// all the while. A rendering is one block of `(size+1)/2 + 1` consecutive lines: the harness takes, from each line that
+/// starts a rendering, exactly that many lines of the child's output — if a foreign line landed between two rows it is
+/// inside the block and the block no longer reads as the matrix. The first damaged block is reported, else the first one.
+pub fn termpc_line(input: &[u8], o: Opts) -> String {
+    let r = build(input, o);
+    let head = format!("termpc {} {} {} {} {} => ", hex(input), opt(o.ecl), opt(o.mode), opt(o.version), opt(o.mask));
+    match &r {
+        Outcome::Ok(q) => {
+            let exe = std::env::current_exe().unwrap();
+            let out = std::process::Command::new(exe)
+                .args(["print-child-mt", &hex(input), &opt(o.ecl), &opt(o.mode), &opt(o.version), &opt(o.mask)])
+                .output();
+            match out {
+                Ok(x) if x.status.success() => {
+                    let text = String::from_utf8_lossy(&x.stdout).to_string();
+                    let lines: Vec<&str> = text.split('\n').collect();
+                    let rows = (q.size + 1) / 2 + 1;
+                    let is_log = |l: &str| l.starts_with("[log]");
+                    let mut blocks: Vec<String> = Vec::new();
+                    let mut i = 0;
+                    while i < lines.len() {
+                        if is_log(lines[i]) || (lines[i].is_empty() && i + 1 == lines.len()) {
+                            i += 1;
+                            continue;
+                        }
+                        let end = (i + rows).min(lines.len());
+                        blocks.push(lines[i..end].join("\n"));
+                        i = end;
+                    }
+                    if blocks.len() != 40 {
+                        return format!("{}trap {}-renderings-found-in-the-output-of-40-print-calls", head, blocks.len());
+                    }
+                    let pick = blocks.iter().find(|b| b.contains("[log]")).unwrap_or(&blocks[0]);
+                    format!("{}ok {} {} {}", head, q.size, matrix_hex(q), hex(pick.as_bytes()))
+                }
+                _ => format!("{}trap", head),
+            }
+        }
+        _ => format!("{}nobuild {}", head, outcome_short(&r)),
+    }
+}
+pub fn print_child_mt(input: &[u8], o: Opts) {
+    use std::sync::atomic::{AtomicBool, Ordering};
+    use std::sync::Arc;
+    if let Outcome::Ok(q) = build(input, o) {
+        let stop = Arc::new(AtomicBool::new(false));
+        let loggers: Vec<_> = (0..2)
+            .map(|t| {
+                let stop = stop.clone();
+                std::thread::spawn(move || {
+                    let mut i = 0u64;
+                    while !stop.load(Ordering::Relaxed) {
+                        println!("[log] worker {} waiting for the device ({})", t, i);
+                        i += 1;
+                        if i % 64 == 0 {
+                            std::thread::yield_now();
+                        }
+                    }
+                })
+            })
+            .collect();
+        std::thread::sleep(std::time::Duration::from_millis(2));
+        for _ in 0..40 {
+            q.print();
+        }
+        stop.store(true, Ordering::Relaxed);
+        for l in loggers {
+            let _ = l.join();
+        }
+    }
+}
 pub fn print_child(input: &[u8], o: Opts) {
     if let Outcome::Ok(q) = build(input, o) {
         q.print();
@@ -1450,6 +1522,14 @@ fn gen_c16(out: &mut Out, rng: &mut Rng, thorough: bool) {
         if v % 8 == 0 || v == 39 || thorough {
             out.job(move || termp_line(&i3, o));
         }
+    }
+    // print() while other threads of the program write to standard output
+    for v in [0usize, 2, 9] {
+        let e = rng.below(4);
+        let len = rng.range(0, caps[2][e][v]);
+        let inp = content(rng, 2, len);
+        let o = Opts { ecl: Some(e), mode: Some(2), version: Some(v), mask: None };
+        out.job(move || termpc_line(&inp, o));
     }
     {
         // the largest symbol fills the backing array completely: no spare row after the last one
